@@ -537,10 +537,91 @@ def part_d(cfg):
     return out
 
 
+# ----------------------------------------------------------------------------- (r) thermostat after a restart
+
+
+def part_r(cfg):
+    """A thermostatted run is interrupted after a checkpoint and finished by run_from_checkpoint (force-free stand-in
+    electronic structure, noise scripted to zero): on the resumed steps the thermostat must still be applied (two noise
+    draws per step) with the damping time of the original run (|v| shrinks by exp(-dt/damp) per step)."""
+    import contextlib
+    import io
+    import os
+
+    import torch
+
+    from seqm.MolecularDynamics import Molecular_Dynamics_Basic
+
+    mols = [M.apply(M.get(nm), M.generic_rot(cfg["rot"])) for nm in ("CH4", "H2O")]
+    dt, T = cfg["dt"], cfg["T"]
+    damp = dt / cfg["ratio"]
+    out = {"problems": [], "evals": 0}
+    prob = out["problems"]
+    params = sp.make_params("AM1", eps=1e-8)
+    molecule, _ = sp.build(mols, params)
+    x0 = molecule.coordinates.detach().clone()
+    nmol, n = x0.shape[:2]
+    cls = H.harmonic_class(np.zeros((nmol, 3 * n, 3 * n)), x0.numpy())
+    wd = MD.scratch_dir("vpc12r")
+    cwd = os.getcwd()
+    os.chdir(wd)
+    steps, at = 4, 2
+    try:
+        with H.scripted_noise() as proxy, H.installed_driver(cls):
+            md = MD.make_engine(cfg["engine"], params, dt, T, MD.output_cfg("md", [0, 1], data=0, coordinates=0, velocities=1, forces=0, checkpoint_every=at),
+                                k=(4 if cfg["engine"].startswith("ksa") else 3), damp=damp)  # fmt: skip
+            MD.crash_after_checkpoint_hook(at)(md, molecule)
+            # user-supplied start velocities (drawing them would consume scripted noise); padding rows at rest
+            i = torch.arange(nmol * n * 3, dtype=torch.float64).reshape(nmol, n, 3)
+            molecule.velocities = 0.01 * torch.sin(0.7 * i + 0.3) * (molecule.species > 0).unsqueeze(-1)
+            proxy.scripted = True  # every thermostat draw is answered with zeros
+            with contextlib.redirect_stdout(io.StringIO()):
+                try:
+                    md.run(molecule, steps=steps, reuse_P=True, remove_com=None, seed=3)
+                    prob.append(("harness", 0.0, "the run was not interrupted"))
+                except MD.SimulatedCrash:
+                    pass
+            out["evals"] += 1
+            d0 = proxy.draws
+            with contextlib.redirect_stdout(io.StringIO()):
+                Molecular_Dynamics_Basic.run_from_checkpoint("md.restart.pt")
+            out["evals"] += 1
+            out["draws_resumed"] = proxy.draws - d0
+        if out["draws_resumed"] != 2 * (steps - at):
+            prob.append(("thermostat_after_restart", float(out["draws_resumed"]), f"{out['draws_resumed']} thermostat noise draws in the {steps - at} resumed steps of a run started with damp = {damp:g} fs (two per step expected): the resumed run is not thermostatted as the original was"))
+        want = math.exp(-dt / damp)
+        worst = 0.0
+        for k in range(nmol):
+            h = MD.read_h5(f"md.{k}.h5")
+            v = h["velocities/values"]
+            lab = [int(s_) for s_ in h["velocities/steps"]]
+            for a_, b_ in zip(range(len(lab) - 1), range(1, len(lab))):
+                if lab[b_] != lab[a_] + 1 or lab[a_] < 1:
+                    continue
+                na, nb = float(np.abs(v[a_]).max()), float(np.abs(v[b_]).max())
+                if na > 0:
+                    out["steps_compared"] = out.get("steps_compared", 0) + 1
+                    dev = abs(nb / na - want)
+                    worst = max(worst, dev)
+                    if not dev <= 1e-12:
+                        prob.append(("friction_after_restart" if lab[b_] > at else "friction_per_step", dev, f"force-free step {lab[a_]} -> {lab[b_]} of molecule {k} multiplies the velocities by {nb / na:.12g}, damp = {damp:g} fs gives {want:.12g}"))
+        out["friction_dev"] = worst
+        if out.get("steps_compared", 0) < nmol * (steps - 1):
+            prob.append(("harness", 0.0, f"only {out.get('steps_compared', 0)} consecutive velocity rows could be compared"))
+    finally:
+        os.chdir(cwd)
+        MD.rm(wd)
+    out["sig"] = f"{out.get('draws_resumed')}"
+    out["error"] = None
+    return out
+
+
 # ----------------------------------------------------------------------------- driver
 
 
 def run_cfg(cfg):
+    if cfg["part"] == "r":
+        return part_r(cfg)
     if cfg["part"] == "d":
         return part_d(cfg)
     if cfg["part"] == "a":
@@ -553,6 +634,8 @@ def run_cfg(cfg):
 def _key(c):
     if c["part"] == "a":
         return f"a|{c['engine']}|dt{c['dt']:g}|r{c['ratio']:g}|T{c['T']:g}" + ("|reused_driver" if c.get("reuse") else "")
+    if c["part"] == "r":
+        return f"r|{c['engine']}|dt{c['dt']:g}|r{c['ratio']:g}|T{c['T']:g}|resumed"
     if c["part"] == "d":
         com = "".join(map(str, c["com"])) if c.get("com") else "none"
         return f"d|sh|{c['mol']}|dt{c['dt']:g}|r{c['ratio']:g}|T{c['T']:g}|com={com}"
@@ -576,6 +659,11 @@ def lattice(tier, rot):
         for ratio in [1e-2, 1.0] if tier == "quick" else RATIOS:
             for T in [300.0] if tier == "quick" else TEMPS:
                 cases.append(dict(part="a", engine=e, dt=0.5, ratio=ratio, T=T, rot=rot, reuse=True))
+    # histories: interrupted after a checkpoint and finished by run_from_checkpoint
+    for e in engines:
+        for ratio in [1e-2, 1.0] if tier == "quick" else [1e-4, 1e-2, 1.0, 10.0]:
+            for T in [300.0] if tier == "quick" else [0.0, 300.0]:
+                cases.append(dict(part="r", engine=e, dt=0.5, ratio=ratio, T=T, rot=rot))
     # surface hopping (real engine, real CIS electronic structure)
     for mol in ["H2CO+H2CO"] if tier == "quick" else ["H2CO+H2CO", "NH3", "H2O+H2O+H2O"]:
         for ratio in [1e-2, 1.0] if tier == "quick" else [1e-4, 1e-2, 1.0, 10.0]:
@@ -617,9 +705,9 @@ def _desc(c, oracle, mag, extra=None):
 
 def evaluate(chk, cases, verbose=False):
     # real-MD limit cases are heavy (one process each); identification cases are milliseconds (chunked)
-    cases = sorted(cases, key=lambda c: {"c": 0, "d": 1, "b": 2, "a": 3}[c["part"]])
-    heavy = [c for c in cases if c["part"] in "cd"]
-    light = [c for c in cases if c["part"] not in "cd"]
+    cases = sorted(cases, key=lambda c: {"c": 0, "d": 1, "r": 2, "b": 3, "a": 4}[c["part"]])
+    heavy = [c for c in cases if c["part"] in "cdr"]
+    light = [c for c in cases if c["part"] not in "cdr"]
     res = pmap(run_cfg, heavy, chunk=1, timeout=1800, progress="C12 limits") + pmap(run_cfg, light, chunk=6, timeout=1200, progress="C12 identification")
     nprob = 0
     elements = set()
